@@ -195,11 +195,56 @@ Print Assumptions C02_zero_time_sentinel_refuted.
 Theorem C02_off_is_inert : forall (R : Type) (rlt : R -> R -> bool) (rzero : R)
     (ops : list (op R)) (fs : fstate) (p : pstate),
   mode_of (fs_mode fs) = m_off -> p <> PMapped ->
+  Forall (keeps_off R) ops ->          (* mode-file rewrites inside the sequence keep it reading off *)
   let '(e, (fs', p')) := exec R rlt rzero ops (fs, p) in
-  forallb off_allowed e = true /\ fs_mode fs' = fs_mode fs /\ fs_local fs' = fs_local fs /\
+  forallb off_allowed e = true /\ mode_of (fs_mode fs') = m_off /\ fs_local fs' = fs_local fs /\
   (fs_upload fs' = fs_upload fs \/ (fs_upload fs = None /\ fs_upload fs' = Some [])) /\ p' <> PMapped.
 Proof. exact off_is_inert_exec. Qed.
 Print Assumptions C02_off_is_inert.
+
+(* Rotation is gated by the mode read AT that rotation.  A process that mapped
+   its count file while the mode was on or local (p = PMapped) and whose
+   rotation (the weekly timer's rotate1) comes after the mode was set to off:
+   the rotation creates nothing and drops the mapping ... *)
+Theorem C02_rotation_under_off : forall (R : Type) (rlt : R -> R -> bool) (rzero : R)
+    (expired : bool) (fs : fstate) (p : pstate),
+  mode_of (fs_mode fs) = m_off ->
+  let '(e, (fs', p')) := step R rlt rzero (OpRotate R expired) (fs, p) in
+  forallb off_allowed e = true /\ fs' = fs /\ p' <> PMapped.
+Proof. exact rotation_under_off. Qed.
+Print Assumptions C02_rotation_under_off.
+
+(* ... and from that rotation on every sequence of Open / Add / Run / further
+   rotations is inert, from ANY process state *)
+Theorem C02_off_from_rotation_on : forall (R : Type) (rlt : R -> R -> bool) (rzero : R)
+    (expired : bool) (ops : list (op R)) (fs : fstate) (p : pstate),
+  mode_of (fs_mode fs) = m_off -> Forall (keeps_off R) ops ->
+  let '(e, (fs', p')) := exec R rlt rzero (OpRotate R expired :: ops) (fs, p) in
+  forallb off_allowed e = true /\ mode_of (fs_mode fs') = m_off /\ fs_local fs' = fs_local fs /\
+  (fs_upload fs' = fs_upload fs \/ (fs_upload fs = None /\ fs_upload fs' = Some [])) /\ p' <> PMapped.
+Proof. exact off_from_rotation_on. Qed.
+Print Assumptions C02_off_from_rotation_on.
+
+(* a count file is created or mapped only at a step that read a mode other
+   than off; it is written only through such a mapping *)
+Theorem C02_mapping_needs_mode_not_off : forall (R : Type) (rlt : R -> R -> bool) (rzero : R)
+    (o : op R) (fs : fstate) (p : pstate),
+  let '(e, (fs', p')) := step R rlt rzero o (fs, p) in
+  (In ECounterFile e -> mode_of (fs_mode fs) <> m_off) /\
+  (In ECounterAdd e -> p = PMapped).
+Proof. exact mapping_needs_mode_not_off. Qed.
+Print Assumptions C02_mapping_needs_mode_not_off.
+
+(* What does NOT hold (known finding recording-until-rotation): between the
+   switch to off and its next rotation a process with a mapped file keeps
+   recording -- Add does not read the mode. *)
+Theorem C02_recording_until_rotation_refuted :
+  let st := snd (exec Z Z.ltb 0 [OpOpen Z; OpSetMode Z (Some (s2b "off 2024-01-03"))] (wit_fs_local, PUnopened)) in
+  mode_of (fs_mode (fst st)) = m_off /\
+  fst (step Z Z.ltb 0 (OpAdd Z) st) = [ECounterAdd] /\
+  fst (exec Z Z.ltb 0 [OpRotate Z true; OpAdd Z; OpAdd Z] st) = [EReadMode].
+Proof. exact recording_until_rotation_refuted. Qed.
+Print Assumptions C02_recording_until_rotation_refuted.
 
 Theorem C02_off_allowed_are_reads : forall e, off_allowed e = true ->
   e = EReadDirLocal \/ e = EReadMode \/ (exists n, e = EReadCount n) \/ e = EReadDirUpload \/ e = EMkdirUpload.
